@@ -57,7 +57,7 @@ def _spec(ctx, targeted=False):
     if targeted:
         return ('4,8', 4, '0,2', '2', 'record-symlinks,run,mixed,cwd-relative')
     if ctx.tier == 'quick':
-        return ('2,8,32', 1, '0', '2', '')
+        return ('2,8,32', 1, '0', '0', '')   # plus a second run with yields at G in {2,8}, see correspondence
     return ('2,3,8,16,32', 3, '1,2,4,16', '2', '')
 
 
@@ -216,6 +216,18 @@ def correspondence(ctx):
     viol = _violations(rc, o, batches)
     nrace = o.count('WARNING: DATA RACE')
     rcs = [rc]
+    if ctx.tier == 'quick' and rc in (0, 66):
+        # the same mixes with runtime.Gosched() between the calls, at 2 and 8 goroutines (32 x yield is left to the
+        # thorough tier: forking from the race-instrumented process dominates the cost)
+        rcy, oy, by = _run(ctx, ('2,8', 1, '0', '1', ''), 'yield', seed_off=300)
+        for b in by:
+            b['id'] += 300000
+        for v in _violations(rcy, oy, by):
+            v['case']['input']['verif_seed'] = ctx.seed + 300
+            viol.append(v)
+        batches += by
+        nrace += oy.count('WARNING: DATA RACE')
+        rcs.append(rcy)
     # cold starts: one batch of 32 goroutines per fresh process, so that whatever the library initialises lazily on
     # first use is first used concurrently (in the long run above only the very first batches are cold)
     cold_mixes = ['mixed', 'rare-paths', 'record-symlinks', 'crypto-metadata', 'run', 'verify']
@@ -252,10 +264,10 @@ def correspondence(ctx):
     corr.rule = ("one evaluation = one batch: G goroutines (2..32), each issuing 3-6 library calls drawn from a call mix on its own "
                  "generated tree (plain / file symlinks / symlinked directories / nested symlinked directories / symlink cycle / "
                  "dangling link / larger files with chains of file and directory symlinks), keys and metadata files; results compared call by call with the same calls made sequentially "
-                 "on an identical copy of the tree; run under the race detector; quick: G in {2,8,32} x 6 mixes (one of them rare-paths: malformed rule patterns distinct per goroutine and call, unparsable metadata, failing inspections, the error return of every entry point, RecordStart/Stop, MatchProducts) x "
-                 "yield on/off, plus 3 cold-start processes of one 32/8-goroutine batch each (concurrent calls run before the sequential "
+                 "on an identical copy of the tree; run under the race detector; quick: G in {2,8,32} x 6 mixes without yields and G in {2,8} x 6 mixes with runtime.Gosched() between calls (one of them rare-paths: malformed rule patterns distinct per goroutine and call, unparsable metadata, failing inspections, the error return of every entry point, RecordStart/Stop, MatchProducts), "
+                 "plus 3 cold-start processes of one 32/8-goroutine batch each (concurrent calls run before the sequential "
                  "ones, so lazily initialised state is first touched concurrently); thorough adds GOMAXPROCS in {1,2,4,16}, more G, "
-                 "rounds and 25 cold starts. Mix cwd-relative (G in {4,8}; thorough {4,8,16} x GOMAXPROCS {default,4} x yield): the harness "
+                 "rounds, yields at every G, and 25 cold starts. Every phase of every batch runs under a deadline (did-not-return = violation). Mix cwd-relative (G in {4,8}; thorough {4,8,16} x GOMAXPROCS {default,4} x yield): the harness "
                  "fixes its working directory once; up to 4 goroutines run InTotoVerifyWithDirectory on their own run directories with "
                  "layouts of 1-2 inspections taking 0.3-0.5 s while the others call RecordArtifacts / InTotoRun with paths relative to "
                  "the working directory, spread over that time; the working directory is checked after every concurrent phase. "
